@@ -267,6 +267,10 @@ def object_shapes(nm: Namer) -> Dict[str, Callable[[T, Ctx], Optional[T]]]:
             (F("a", Uni((x, Prim("undefined"))), default="Undefined", has_default=True, default_value=UNDEF),),
         )
 
+    def undefined_default_plain(x, c):
+        # a default Undefined marks the field as absent whatever its declared type (docs/data_model.md)
+        return Obj("dataclass", nm("O"), (F("a", x, default="Undefined", has_default=True, default_value=UNDEF), F("b", INT, default="0", has_default=True, default_value=0)))
+
     def init_false(x, c):
         f = dfield("b", x, c, init=False)
         return f and Obj("dataclass", nm("O"), (F("a", INT), f))
